@@ -12,8 +12,8 @@
    implementation-level expectations (changed flags, insert's return value) in `odd`. *)
 EXTENDS Naturals, Integers, Sequences, FiniteSets
 
-VARIABLES sem, width, keys, fam, rows, bad, odd
-mvars == <<sem, width, keys, fam, rows, bad, odd>>
+VARIABLES sem, width, keys, fam, rows, bad, odd, bad7     \* bad7: C07 (bimorphism) rules broken
+mvars == <<sem, width, keys, fam, rows, bad, odd, bad7>>
 
 -----------------------------------------------------------------------------
 (* bags of rows *)
@@ -40,12 +40,12 @@ Other(s) == 3 - s
 MInit ==
     /\ sem = "set" /\ width = 0 /\ keys = 0 /\ fam = "coll"
     /\ rows = <<NoRows, NoRows>>
-    /\ bad = {} /\ odd = {}
+    /\ bad = {} /\ odd = {} /\ bad7 = {}
 
 MReset(sm, w, k, f) ==
     /\ sem' = sm /\ width' = w /\ keys' = k /\ fam' = f
     /\ rows' = <<NoRows, NoRows>>
-    /\ bad' = {} /\ odd' = {}
+    /\ bad' = {} /\ odd' = {} /\ bad7' = {}
 
 -----------------------------------------------------------------------------
 (* the new contents of store s after `op`, from the old contents *)
@@ -114,7 +114,29 @@ MOp(op, s, row, rws, head, prefix, ret, panic) ==
                               ELSE "panic"}
                         ELSE Check(op, s, row, rws, head, prefix, ret))
     /\ odd' = odd \cup (IF panic THEN {} ELSE Odd(op, s, ret))
-    /\ UNCHANGED <<sem, width, keys, fam>>
+    /\ UNCHANGED <<sem, width, keys, fam, bad7>>
+
+-----------------------------------------------------------------------------
+(* C07: the trie bimorphisms distribute over merge in each argument.
+   The relational meaning of the bimorphisms on row sets X (first argument), Y (second):
+     "cart"                 all columns of X x all columns of Y          (product at the root)
+     "join" "wrap" "valprod" x \o (value columns of y) for x, y agreeing on the `keys` key columns
+                            (keyed / deep join; `wrap` = the by-value GhtBimorphism wrapper;
+                             `valprod` = the leaf product, keys = 0) *)
+BimRows(bim, X, Y) ==
+    IF bim = "cart" THEN {x \o y : x \in X, y \in Y}
+    ELSE {xy[1] \o SubSeq(xy[2], keys + 1, width) : xy \in {z \in X \X Y : SameKey(z[1], z[2], keys)}}
+
+\* side "l": lhs = f(a |_| da, b), rhs = f(a, b) |_| f(da, b); side "r": the second argument grows.
+\* ret = <<rows of lhs, rows of rhs, lhs == rhs by the type's own eq>>
+MDist(bim, side, a, da, b, ret, panic) ==
+    LET grown == Range(a) \cup Range(da)
+        want == IF side = "l" THEN BimRows(bim, grown, Range(b)) ELSE BimRows(bim, Range(b), grown)
+        name == IF side = "l" THEN "distributivity-left" ELSE "distributivity-right"
+    IN /\ bad7' = bad7 \cup
+            (IF panic THEN {name}
+             ELSE IF IsSet(ret[1], want) /\ IsSet(ret[2], want) /\ ret[3] = TRUE THEN {} ELSE {name})
+       /\ UNCHANGED <<sem, width, keys, fam, rows, bad, odd>>
 
 NoRuleBroken == bad = {}
 Broken == bad
